@@ -231,6 +231,21 @@ def run_impl(case):
             out["t_back_fpr"] = _encl(ds.threshold_at_fpr(vals["fpr"]))
         for k2, v in vals.items():
             out[k2] = _encl(v)
+        # the closed forms are functions of the VALUE handed in: float32 / float16 arrays of thresholds or rates give what the
+        # same values give as float64
+        nf_bad = None
+        for ndt in (np.float32, np.float16):
+            with np.errstate(all="ignore"):
+                t_n, r_n = np.atleast_1d(thr).astype(ndt), np.atleast_1d(rates).astype(ndt)
+                # (rates only: for the inverse direction SciPy itself evaluates ppf / isf of a float32 array in single precision)
+                for fname, arg in (("fnr", t_n), ("fpr", t_n)):
+                    if not np.all(np.isfinite(arg.astype(float))):
+                        continue
+                    a_ = np.asarray(getattr(ds, fname)(arg), dtype=float)
+                    b_ = np.asarray(getattr(ds, fname)(arg.astype(np.float64)), dtype=float)
+                    if not np.array_equal(a_, b_, equal_nan=True) and nf_bad is None:
+                        nf_bad = [fname, np.dtype(ndt).name, [repr(float(v)) for v in arg.astype(float)[:3]], [repr(float(v)) for v in a_[:3]], [repr(float(v)) for v in b_[:3]]]
+        out["narrow_float_bad"] = nf_bad
         # roc
         mode = case["roc"]
         try:
@@ -392,6 +407,9 @@ def oracle(case, res):
         sp, sn = F(case["sp"]), F(case["sn"])
         if not r["types_ok"]:
             fails.append(("C20/normal/shape", "scalar argument did not give a Python float / array argument did not keep its shape"))
+        if r.get("narrow_float_bad"):
+            nb_ = r["narrow_float_bad"]
+            fails.append(("C20/normal/narrow-float-input", f"{nb_[0]}({nb_[1]} array {nb_[2]}) = {nb_[3]}, the same values as float64 give {nb_[4]}"))
         if case["mu_neg"] is None and F(r["mu_neg"]) != -F(case["mu_pos"]):
             fails.append(("C20/normal/post_init", "mu_neg does not default to -mu_pos"))
         for x, back in zip(rates, r["fnr_back"]):
